@@ -3,6 +3,10 @@
 import json, subprocess
 GOENV = "GOFLAGS=-mod=mod GOPROXY=off GOSUMDB=off GOTOOLCHAIN=local CGO_ENABLED=1"
 CHECKS = {
+ "C11": dict(engine="E5 cancellation enumeration", level="fault_enumeration", design="DESIGN.md 4/C11",
+   text="31 non-terminating and terminating script templates and generated programs are cancelled at every main-thread dispatch poll and inside every tick() host call of a bounded prefix, with fixed and auto-growing call stacks; after cancel() returns no host call may start, DoString must return an error carrying the context's reason within a bounded number of further polls, never a Go panic; blocked channel receive/send/select must wake",
+   note="trusts that the VM polls the context once per dispatched instruction; cancellation points of one script are enumerated completely within the stated prefix, the set of scripts is fixed plus generated; the blocked-channel verdict uses goroutine-state sampling with a confirming observation",
+   technique="fault injection: exhaustive enumeration of cancellation points over script templates and generated programs, counting (not timing) oracle"),
  "C05": dict(engine="E1 fault enumeration", level="fault_enumeration", design="DESIGN.md 4/C05",
    text="(a) every fault(i) site of every generated program x 12 fault kinds is run against the reference interpreter with the same fault, with interpreter-state snapshots around each protected call; (b) a fault is injected at every instruction boundary of generated 'prologue; pcall(pure body); epilogue' programs through a context that fires at exactly the k-th dispatch, and the outcome is checked against the fault-free run (prefix of side effects, monotone in k, identical failure epilogue, equal snapshots, no Go panic)",
    note="(a) trusts verif/luaref; (b) trusts only that the VM polls the context once per dispatched instruction; fault sites are enumerated completely per program, programs are sampled",
